@@ -1,5 +1,559 @@
-"""E6-based rules (regex literals as data tables), filled in below."""
+"""E6-based rules: regex literals and small pure string predicates of the reader treated as data tables and decided by
+bounded-exhaustive enumeration (the predicates are interpreted from their AST by sa.pureeval, never imported)."""
+import ast
+import itertools
+import re
+
+from sa import astutil as A
+from sa import pureeval as PE
+from sa.model import AnalysisError
+from sa.report import RuleResult
+
+RF = "fparser.common.readfortran"
+SI = "fparser.common.sourceinfo"
 
 
+def words(alphabet, maxlen, minlen=0):
+    for n in range(minlen, maxlen + 1):
+        for t in itertools.product(alphabet, repeat=n):
+            yield "".join(t)
+
+
+def evaluator(m, modname):
+    return PE.Evaluator(PE.module_regexes(m, modname))
+
+
+def run_pred(r, ev, func, args, what):
+    """Interpret func on args; Unsupported -> analysis error recorded on r (returns a marker)."""
+    try:
+        return ev.run_function(func.node, args)
+    except PE.PyRaise as err:
+        return err
+    except PE.Unsupported as err:
+        r.error("%s: cannot interpret %s statically (%s)" % (what, func.qualname, err))
+        raise
+
+
+# =================================================================================================
+# C05
+# =================================================================================================
+LABELS5 = ["     ", "   10", "10   ", "12345", "    1", "1    ", " 100 "]
+COL6 = [" ", "&", "1", "9", "+", "$", ".", "*", "x", "0"]
+FREE_STMTS = ["program p", "x = 1", "subroutine s(a)", "module m", "use m", "integer :: i", "end", "if (a) then", "do i=1,2", "real x"]
+
+
+def c05_rules(m):
+    out = []
+    # ---------------------------------------------------------------- R1 detector
+    r = RuleResult("C05.R1", "the form detector votes free exactly for a statement starting in columns 1-5 or a trailing '&', "
+                             "never for a label field, a comment line or a fixed-form continuation line")
+    r.floor = 3
+    f = m.need_func(SI, "get_source_info_str")
+    ev = evaluator(m, SI)
+    vote_if = None
+    P = A.parents(f.node)
+    for n in A.body_nodes(f.node):
+        if isinstance(n, ast.If) and any(isinstance(c, ast.Call) and A.text(c.func) == "_FREE_FORMAT_START" for c in ast.walk(n.test)):
+            vote_if = n
+    if vote_if is None:
+        r.error("get_source_info_str: the test applying _FREE_FORMAT_START was not found (anchor vanished)")
+        out.append(r)
+    else:
+        guards = []
+        x = vote_if
+        while x in P and P[x] is not f.node:
+            p = P[x]
+            if isinstance(p, ast.If) and x in p.body:
+                guards.append(p.test)
+            x = p
+        loop = None
+        for n in A.body_nodes(f.node):
+            if isinstance(n, ast.While) and any(x is vote_if for x in ast.walk(n)):
+                loop = n
+        if loop is None:
+            r.error("get_source_info_str: the voting loop was not found")
+            out.append(r)
+            return out
+        flag = None
+        for n in ast.walk(loop):
+            if isinstance(n, ast.Assign) and isinstance(n.value, ast.Constant) and n.value.value is True:
+                flag = A.text(n.targets[0])
+        if flag is None:
+            r.error("get_source_info_str: the free-form flag set by the voting loop was not found")
+            out.append(r)
+            return out
+
+        def vote(text):
+            # one iteration of the voting loop on one physical line, interpreted from the AST
+            env = {"lines": [text], flag: False, "line_tally": 10000}
+            try:
+                ev.block(loop.body, env)
+            except PE._Break:
+                pass
+            except PE._Continue:
+                pass
+            return bool(env[flag])
+
+        try:
+            cases = []
+            for lab in LABELS5:
+                for c6 in COL6:
+                    for rest in ("x = 1", "call foo(a,", "end", ""):
+                        if (lab + c6 + rest).rstrip().endswith("&"):
+                            continue   # a trailing '&' is the documented free-form vote
+                        cases.append(("fixed", lab + c6 + rest, False))
+            for ch in "cC*!":
+                for rest in ("", " comment", "omment text", "$omp parallel", "     x = 1"):
+                    cases.append(("comment", ch + rest, False))
+            for k in range(0, 5):
+                for st in FREE_STMTS:
+                    if k == 0 and st[0] in "cC":
+                        continue
+                    cases.append(("free", " " * k + st, True))
+            for base in ("      x = 1 + &", "      call foo(a, &", "   10 y = 2 &"):
+                cases.append(("trailing-&", base, True))
+            cases.append(("tab", "\tx = 1", False))
+            bad = {}
+            for kind, text, want in cases:
+                r.instances += 1
+                got = vote(text)
+                ok = got == want
+                r.ob(ok, "%s line %r votes free: %s" % (kind, text, got) if r.obligations % 40 == 0 else None)
+                if not ok and kind not in bad:
+                    bad[kind] = (text, got)
+            for kind, (text, got) in bad.items():
+                r.fail("vote|%s" % kind, "the form detector %s for the %s line %r (and possibly others of that kind)"
+                       % ("votes free" if got else "does not vote free", kind, text), m.loc(f, vote_if))
+        except PE.Unsupported as err:
+            r.error("get_source_info_str: cannot interpret the voting expression statically (%s)" % err)
+        out.append(r)
+    # ---------------------------------------------------------------- R2 comment predicate, R4 continuation predicate
+    r = RuleResult("C05.R2", "fixed-form comment lines are exactly those introduced by C, c, * or ! in column 1 (and blank lines); "
+                             "any non-blank non-zero character in column 6 after a blank label field marks a continuation")
+    r.floor = 2
+    ev = evaluator(m, RF)
+    fc = m.need_func(RF, "_is_fix_comment")
+    fcont = m.need_func(RF, "_is_fix_cont")
+    try:
+        bad = {}
+        for strict in (False, True):
+            for ch in "*cC!":
+                for rest in ("", " a comment", "omment", "     x = 1"):
+                    r.instances += 1
+                    got = run_pred(r, ev, fc, [ch + rest, strict, False], "C05.R2")
+                    ok = got is True
+                    r.ob(ok)
+                    if not ok:
+                        bad.setdefault("comment|%s" % ch, (ch + rest, got))
+            for text in ("      x = 1", "   10 continue", "     & y + 1", "     1 y", "      call c(1)", "      c = 1", "10    c = *"):
+                r.instances += 1
+                got = run_pred(r, ev, fc, [text, strict, False], "C05.R2")
+                ok = not got or isinstance(got, PE.PyRaise) and False
+                r.ob(ok)
+                if not ok:
+                    bad.setdefault("statement", (text, got))
+            r.instances += 1
+            got = run_pred(r, ev, fc, ["", strict, False], "C05.R2")
+            r.ob(got is True)
+            if got is not True:
+                bad.setdefault("blank", ("", got))
+        r.sample("_is_fix_comment('c comment', False, False) -> True; ('      c = 1', ...) -> False")
+        for key, (text, got) in bad.items():
+            r.fail("_is_fix_comment|%s" % key, "_is_fix_comment(%r) gives %r" % (text, got), m.loc(fc))
+        bad = {}
+        for c6 in "&123456789+$.*xX-/:;,'\"!":
+            r.instances += 1
+            got = run_pred(r, ev, fcont, ["     " + c6 + " x + 1"], "C05.R2")
+            ok = bool(got) and not isinstance(got, PE.PyRaise)
+            r.ob(ok)
+            if not ok:
+                bad.setdefault("mark|%s" % c6, ("     " + c6 + " x + 1", got))
+        for text in ("      x = 1", "   10 x = 1", "   10& x", "1    &x", "", "     ", "    &", None):
+            r.instances += 1
+            got = run_pred(r, ev, fcont, [text], "C05.R2")
+            ok = not got and not isinstance(got, PE.PyRaise)
+            r.ob(ok)
+            if not ok:
+                bad.setdefault("notcont|%r" % (text,), (text, got))
+        r.sample("_is_fix_cont('     & x + 1') truthy; ('   10& x') falsy")
+        for key, (text, got) in sorted(bad.items())[:4]:
+            r.fail("_is_fix_cont|%s" % key, "_is_fix_cont(%r) gives %r%s" % (text, got, " (a valid continuation mark is not recognised)"
+                   if key.startswith("mark") else " (not a continuation line)"), m.loc(fcont))
+    except PE.Unsupported:
+        pass
+    out.append(r)
+    # ---------------------------------------------------------------- R5 label conversion
+    r = RuleResult("C05.R5", "the fixed-form label conversion is total on the label field (blanks are insignificant) and reads columns 1-5")
+    r.floor = 1
+    g = m.need_func(RF, "FortranReaderBase.get_source_item")
+    ints = []
+    for n in A.body_nodes(g.node):
+        if isinstance(n, ast.Assign) and isinstance(n.value, ast.Call) and A.text(n.value.func) == "int" and A.text(n.targets[0]) == "label":
+            ints.append(n)
+    if not ints:
+        r.error("get_source_item: `label = int(...)` not found (anchor vanished)")
+    for n in ints:
+        arg = n.value.args[0]
+        defs = [x for x in A.body_nodes(g.node) if isinstance(x, ast.Assign) and isinstance(arg, ast.Name)
+                and A.text(x.targets[0]) == arg.id]
+        expr = defs[0].value if len(defs) == 1 else (arg if not isinstance(arg, ast.Name) else None)
+        if expr is None:
+            r.error("get_source_item: the operand of the label's int() has no single definition")
+            continue
+        ev = evaluator(m, RF)
+        bad = None
+        cnt = 0
+        for w in words(" 12", 5, 5):
+            if not w.strip():
+                continue
+            cnt += 1
+            r.instances += 1
+            want = int(w.replace(" ", ""))
+            try:
+                s = ev.ev(expr, {"line": w + " continue"})
+                got = int(s) if s else None
+            except ValueError:
+                got = "ValueError"
+            except PE.PyRaise as err:
+                got = err.exc_type
+            except PE.Unsupported as err:
+                r.error("cannot interpret the label operand `%s` (%s)" % (A.text(expr), err))
+                break
+            ok = got == want
+            r.ob(ok, "label field %r -> %r" % (w, got) if cnt % 60 == 1 else None)
+            if not ok and bad is None:
+                bad = (w, got, want)
+        if bad:
+            r.fail("label-int|%s" % A.text(expr), "the fixed-form label field %r is converted by int(%s) to %r, not %r: the statement "
+                   "is lost or mislabelled" % (bad[0], A.text(expr), bad[1], bad[2]), m.loc(g, n))
+    out.append(r)
+    return out
+
+
+# =================================================================================================
+# C15
+# =================================================================================================
+def c15_rules(m):
+    out = []
+    r = RuleResult("C15.R1", "the conditional-compilation sentinel regexes accept exactly the sentinel forms of the property and "
+                             "the replacement keeps the columns")
+    r.floor = 3
+    sf = m.need_func(RF, "FortranReaderBase.set_format")
+    ev = PE.Evaluator({})
+    consts = {}
+    regs = {}    # attribute name -> list of (branch, pattern, flags)
+    P = A.parents(sf.node)
+
+    # the four source forms, with FortranFormat's own property definitions interpreted from their AST
+    fk = m.key("FortranFormat", SI)
+    props = {}
+    for name, d in m.classes[fk]["own"].items():
+        if d.get("kind") == "property":
+            pf = m.method(fk, name)
+            if pf is not None:
+                props[name] = pf.node
+    forms = {}
+    for free in (True, False):
+        for strict in (True, False):
+            forms[(free, strict)] = PE.Obj({"_is_free": free, "_is_strict": strict, "_f2py_enabled": False}, props)
+
+    def branch_of(node):
+        """'fixed' / 'free' / 'mixed:<why>' : which source forms reach this statement."""
+        x = node
+        conds = []
+        while x in P and P[x] is not sf.node:
+            p = P[x]
+            if isinstance(p, ast.If) and "_format" in A.text(p.test):
+                conds.append((p.test, x in p.body))
+            x = p
+        if not conds:
+            return "any"
+        reach = set()
+        for key, fobj in forms.items():
+            me = PE.Obj({"_format": fobj})
+            ok = True
+            for test, pol in conds:
+                val = bool(PE.Evaluator({}).ev(test, {"self": me}))
+                if val != pol:
+                    ok = False
+            if ok:
+                reach.add(key)
+        fixed = {(False, True), (False, False)}
+        free = {(True, False), (True, True)}
+        if reach == fixed:
+            return "fixed"
+        if reach == free:
+            return "free"
+        return "mixed:%s" % sorted(reach)
+    try:
+        for n in A.body_nodes(sf.node):
+            if isinstance(n, ast.Assign) and isinstance(n.targets[0], ast.Name) and isinstance(n.value, (ast.Constant, ast.JoinedStr)):
+                consts[n.targets[0].id] = ev.ev(n.value, consts)
+        for n in A.body_nodes(sf.node):
+            if isinstance(n, ast.Assign) and isinstance(n.targets[0], ast.Attribute) and isinstance(n.value, ast.Call) \
+                    and A.text(n.value.func) == "re.compile":
+                pat = ev.ev(n.value.args[0], consts)
+                fl = 0
+                if len(n.value.args) > 1:
+                    ft = A.text(n.value.args[1])
+                    for nm, v in (("IGNORECASE", re.I), ("re.I", re.I)):
+                        if nm in ft:
+                            fl |= v
+                regs.setdefault(n.targets[0].attr, []).append((branch_of(n), pat, fl))
+    except PE.Unsupported as err:
+        r.error("set_format: cannot fold the sentinel regex literals (%s)" % err)
+    for attr, lst in regs.items():
+        for br, pat, fl in lst:
+            if br.startswith("mixed"):
+                r.instances += 1
+                r.ob(False)
+                r.fail("set_format|branch|%s" % attr, "set_format compiles the sentinel regex %r for the source forms (is_free, is_strict) in %s: "
+                       "fixed-form regexes must be used for exactly the two fixed forms (strict and non-strict) and free-form ones for the "
+                       "free forms" % (pat, br[6:]), m.loc(sf))
+    if any(br.startswith("mixed") for lst in regs.values() for br, _, _ in lst):
+        out.append(r)
+        return out
+    fixed = [x for x in regs.get("_re_omp_sentinel", []) if x[0] == "fixed"]
+    free = [x for x in regs.get("_re_omp_sentinel", []) if x[0] == "free"]
+    cont = regs.get("_re_omp_sentinel_cont", [])
+    if not (len(fixed) == 1 and len(free) == 1 and len(cont) == 1):
+        r.error("set_format: expected one fixed, one free and one continuation sentinel regex, found %d/%d/%d" % (len(fixed), len(free), len(cont)))
+        out.append(r)
+        return out
+    rf, rfr, rc = (re.compile(x[0][1], x[0][2]) for x in (fixed, free, cont))
+
+    def check(name, rx, accept, reject, site):
+        for text in accept:
+            r.instances += 1
+            mt = rx.match(text)
+            ok = mt is not None and mt.end(1) - mt.start(1) == 2 and text[mt.start(1):mt.end(1)].lower() in ("!$", "c$", "*$")
+            r.ob(ok, "%s accepts %r" % (name, text))
+            if not ok:
+                r.fail("%s|accept|%s" % (name, text), "the %s sentinel regex %r does not recognise %r (or its group 1 is not the 2-character "
+                       "sentinel)" % (name, rx.pattern, text), site)
+        for text in reject:
+            r.instances += 1
+            ok = rx.match(text) is None
+            r.ob(ok, "%s rejects %r" % (name, text))
+            if not ok:
+                r.fail("%s|reject|%s" % (name, text), "the %s sentinel regex %r treats %r as a conditional-compilation line"
+                       % (name, rx.pattern, text), site)
+    site = m.loc(sf)
+    check("fixed", rf,
+          ["!$    x = 1", "c$    x = 1", "C$    x = 1", "*$    x = 1", "!$ 10 x = 1", "!$100 continue", "!$   &  + y", "c$   1  + y", "*$   +y", "!$   0x = 1"],
+          ["!$omp parallel", "c$omp do", "*$omp end do", "C$OMP PARALLEL", " !$   x = 1", "      x = 1", "!$x   y = 1", "c comment", "!$ab  x"],
+          site)
+    check("free", rfr,
+          ["!$ x = 1", "  !$ x = 1", "!$ 10 continue", "    !$ call foo()"],
+          ["!$omp parallel", "!$x = 1", "x = 1 !$ y", "! $ x = 1", "!$", "c$ x = 1", "!$omp& private(i)"],
+          site)
+    check("free-continuation", rc,
+          ["!$ & + y", "!$& + y", "  !$   &y", "!$ y"],
+          ["x !$ & y", "! $ & y", "& y"],
+          site)
+    # replacement keeps the columns
+    rp = m.need_func(RF, "FortranReaderBase.replace_omp_sentinels")
+    ev2 = evaluator(m, RF)
+    try:
+        for rx, text in ((rf, "!$ 10 x = 1"), (rf, "c$   &  + y"), (rfr, "   !$ x = 1"), (rc, "!$& + y"),
+                         (rfr, "!$ print *, '!$omp threads'"), (rf, "c$    c$ = 1"), (rf, "*$    x = y *$ z")):
+            r.instances += 1
+            res = ev2.run_function(rp.node, [text, rx])
+            ok = isinstance(res, tuple) and res[1] is True and len(res[0]) == len(text) and \
+                res[0] == text[:rx.match(text).start(1)] + "  " + text[rx.match(text).end(1):]
+            r.ob(ok, "replace_omp_sentinels(%r) -> %r" % (text, res))
+            if not ok:
+                r.fail("replace|%s" % text, "replace_omp_sentinels(%r) gives %r: the sentinel is not replaced by exactly two blanks "
+                       "(columns shift or text is lost)" % (text, res), m.loc(rp))
+        r.instances += 1
+        res = ev2.run_function(rp.node, ["      x = 1", rf])
+        ok = res == ("      x = 1", False)
+        r.ob(ok)
+        if not ok:
+            r.fail("replace|nomatch", "replace_omp_sentinels changes a line without sentinel: %r" % (res,), m.loc(rp))
+    except PE.Unsupported as err:
+        r.error("replace_omp_sentinels cannot be interpreted statically (%s)" % err)
+    except PE.PyRaise as err:
+        r.fail("replace|raises", "replace_omp_sentinels raises %s on a sentinel line" % err.exc_type, m.loc(rp))
+    out.append(r)
+
+    # ---------------------------------------------------------------- R2 gating and ordering
+    r = RuleResult("C15.R2", "sentinel replacement happens only when conditional lines are enabled, and before the line is classified as a comment")
+    r.floor = 3
+    sites = []
+    for qn in ("get_single_line", "get_source_item"):
+        f = m.need_func(RF, "FortranReaderBase." + qn)
+        Pf = A.parents(f.node)
+        for c in A.calls(f.node):
+            if A.text(c.func).endswith("replace_omp_sentinels"):
+                guards = []
+                x = c
+                while x in Pf and Pf[x] is not f.node:
+                    p = Pf[x]
+                    if isinstance(p, ast.If) and x in p.body:
+                        guards.append(A.text(p.test))
+                    x = p
+                sites.append((f, c, guards))
+    if len(sites) < 3:
+        r.error("fewer than 3 replace_omp_sentinels call sites found (anchor vanished)")
+    for f, c, guards in sites:
+        r.instances += 1
+        gtxt = " and ".join(guards)
+        regex_arg = A.text(c.args[1]) if len(c.args) > 1 else ""
+        if regex_arg.endswith("_cont"):
+            ok = "had_omp_sentinels" in gtxt
+            why = "the continuation regex is applied although the first line had no sentinel"
+        else:
+            ok = "_include_omp_conditional_lines" in gtxt
+            why = "sentinels are replaced although conditional-line handling is not enabled"
+        r.ob(ok, "%s: `%s` under `%s`" % (f.qualname, A.text(c)[:60], gtxt[:80]))
+        if not ok:
+            r.fail("%s|gate|%s" % (f.qualname, regex_arg), "%s: %s (`%s` is guarded by `%s`)" % (f.qualname, why, A.text(c)[:50], gtxt[:60]), m.loc(f, c))
+    # had_omp_sentinels only assigned from a gated call
+    gsi = m.need_func(RF, "FortranReaderBase.get_source_item")
+    r.instances += 1
+    assigns = [n for n in A.body_nodes(gsi.node) if isinstance(n, ast.Assign) and "had_omp_sentinels" in A.assigned_names(n.targets[0])]
+    ok = all((isinstance(n.value, ast.Constant) and n.value.value is False) or
+             (isinstance(n.value, ast.Call) and A.text(n.value.func).endswith("replace_omp_sentinels")) for n in assigns) and bool(assigns)
+    r.ob(ok, "had_omp_sentinels is False or the result of the gated replacement")
+    if not ok:
+        r.fail("had_omp_sentinels", "had_omp_sentinels is assigned from something other than False / the gated sentinel replacement", m.loc(gsi))
+
+    # ordering: replacement precedes comment classification
+    def first_pos(f, pred):
+        best = None
+        for n in A.body_nodes(f.node):
+            if isinstance(n, ast.Call) and pred(n):
+                pos = (n.lineno, n.col_offset)
+                if best is None or pos < best:
+                    best = pos
+        return best
+    gsl = m.need_func(RF, "FortranReaderBase.get_single_line")
+    r.instances += 1
+    a = first_pos(gsl, lambda n: A.text(n.func).endswith("replace_omp_sentinels"))
+    b = first_pos(gsl, lambda n: A.text(n.func) == "_is_fix_comment")
+    ok = a is not None and b is not None and a < b
+    r.ob(ok, "get_single_line: sentinel replacement (%s) precedes the fixed-form comment filter (%s)" % (a, b))
+    if not ok:
+        r.fail("get_single_line|order", "get_single_line filters fixed-form comment lines before replacing the conditional sentinel: an enabled "
+               "`c$`/`!$`/`*$` line is discarded as a comment", m.loc(gsl))
+    r.instances += 1
+    a = first_pos(gsi, lambda n: A.text(n.func).endswith("replace_omp_sentinels"))
+    b = first_pos(gsi, lambda n: A.text(n.func).endswith("handle_inline_comment") or A.text(n.func) == "_is_fix_comment")
+    ok = a is not None and b is not None and a < b
+    r.ob(ok, "get_source_item: sentinel replacement precedes comment handling")
+    if not ok:
+        r.fail("get_source_item|order", "get_source_item handles comments before replacing the free-form conditional sentinel: an enabled `!$ ` "
+               "line is discarded as a comment", m.loc(gsi))
+    # inside the free-form loop: continuation replacement precedes handle_inline_comment
+    r.instances += 1
+    ok = False
+    for n in A.body_nodes(gsi.node):
+        if isinstance(n, ast.While):
+            pa = pb = None
+            for c in ast.walk(n):
+                if isinstance(c, ast.Call):
+                    t = A.text(c.func)
+                    pos = (c.lineno, c.col_offset)
+                    if t.endswith("replace_omp_sentinels") and (pa is None or pos < pa):
+                        pa = pos
+                    if t.endswith("handle_inline_comment") and (pb is None or pos < pb):
+                        pb = pos
+            if pa is not None and pb is not None:
+                ok = pa < pb
+    r.ob(ok, "get_source_item: in the continuation loop the sentinel is replaced before the inline-comment split")
+    if not ok:
+        r.fail("get_source_item|loop-order", "in the free-form continuation loop the `!$ &` sentinel is not replaced before the inline comment "
+               "is split off: the continuation line of a conditional statement becomes a comment", m.loc(gsi))
+    out.append(r)
+    return out
+
+
+# =================================================================================================
+# C13: the INCLUDE line regex ; C12/C04: label and construct-name extraction
+# =================================================================================================
 def c13_rules(m):
-    return []
+    r = RuleResult("C13.R4", "the INCLUDE-line regex accepts exactly `include 'file'` / `include \"file\"` (any case, blanks) and the "
+                             "file name is the text between the quotes")
+    r.floor = 1
+    g = PE.module_regexes(m, RF)
+    rx = g.get("_IS_INCLUDE_LINE")
+    if rx is None:
+        r.error("_IS_INCLUDE_LINE vanished")
+        return [r]
+    nx = m.need_func(RF, "FortranReaderBase.next")
+    fname_expr = None
+    for n in A.body_nodes(nx.node):
+        if isinstance(n, ast.Assign) and A.text(n.targets[0]) == "filename":
+            fname_expr = n.value
+    ev = evaluator(m, RF)
+    for text, want in (("include 'a.inc'", "a.inc"), ('INCLUDE "dir/b.h"', "dir/b.h"), ("  Include   'c d.f90'  ", "c d.f90"),
+                       ("include'x'", "x")):
+        r.instances += 1
+        ok = rx(text) is not None
+        got = None
+        if ok and fname_expr is not None:
+            try:
+                class It:
+                    pass
+                got = ev.ev(_subst_item_line(fname_expr), {"__line__": text.strip()})
+                ok = got == want
+            except (PE.Unsupported, PE.PyRaise) as err:
+                r.error("cannot interpret the file-name expression `%s` (%s)" % (A.text(fname_expr), err))
+                break
+        r.ob(ok, "%r -> file %r" % (text, got))
+        if not ok:
+            r.fail("include|accept|%s" % text, "the INCLUDE line %r is not recognised, or its file name is extracted as %r instead of %r"
+                   % (text, got, want), m.loc(nx))
+    for text in ("include", "include 'a' x", "include a.inc", "x = include 'a'", "include ''", "included 'a'"):
+        r.instances += 1
+        ok = rx(text) is None or text == "included 'a'" and False
+        if text == "included 'a'":
+            ok = rx(text) is None
+        r.ob(ok, "%r rejected" % text)
+        if not ok:
+            r.fail("include|reject|%s" % text, "%r is treated as an INCLUDE line" % text, m.loc(nx))
+    return [r]
+
+
+def _subst_item_line(expr):
+    """Replace `item.line` by the name __line__ in a copy of expr."""
+    class T(ast.NodeTransformer):
+        def visit_Attribute(self, node):
+            if A.text(node) == "item.line":
+                return ast.copy_location(ast.Name(id="__line__", ctx=ast.Load()), node)
+            return self.generic_visit(node)
+    import copy
+    return T().visit(copy.deepcopy(expr))
+
+
+def label_name_rules(m, rid):
+    r = RuleResult(rid, "label and construct-name extraction separate `10 outer: stmt` into (10, 'outer', 'stmt') and leave other text alone")
+    r.floor = 2
+    ev = evaluator(m, RF)
+    el = m.need_func(RF, "extract_label")
+    ec = m.need_func(RF, "extract_construct_name")
+    try:
+        for text, want in (("10 continue", (10, "continue")), ("  20   x = 1", (20, "x = 1")), ("x = 10", (None, "x = 10")),
+                           ("100 format(1x)", (100, "format(1x)")), ("10x = 1", (None, "10x = 1")),
+                           ("30 &", (30, "&"))):
+            r.instances += 1
+            got = ev.run_function(el.node, [text])
+            ok = got == want
+            r.ob(ok, "extract_label(%r) -> %r" % (text, got))
+            if not ok:
+                r.fail("extract_label|%s" % text, "extract_label(%r) gives %r, expected %r" % (text, got, want), m.loc(el))
+        for text, want in (("outer: do i=1,2", ("outer", "do i=1,2")), ("a :if (x) then", ("a", "if (x) then")), ("x = y", (None, "x = y")),
+                           ("Loop_1:  do", ("Loop_1", "do")), ("x(1:2) = 3", (None, "x(1:2) = 3")), ("print *, 'a: b'", (None, "print *, 'a: b'")),
+                           ("a::b", (None, "a::b"))):
+            r.instances += 1
+            got = ev.run_function(ec.node, [text])
+            ok = got == want
+            r.ob(ok, "extract_construct_name(%r) -> %r" % (text, got))
+            if not ok:
+                r.fail("extract_construct_name|%s" % text, "extract_construct_name(%r) gives %r, expected %r" % (text, got, want), m.loc(ec))
+    except PE.Unsupported as err:
+        r.error("extract_label/extract_construct_name cannot be interpreted statically (%s)" % err)
+    except PE.PyRaise as err:
+        r.fail("extract|raises", "label/name extraction raises %s" % err.exc_type, m.loc(el))
+    return r
